@@ -180,6 +180,18 @@ pub fn gen_robot(rng: &mut Rng, idx: u64, mode: RobotMode, dof5_prob: f64) -> Ro
         };
         (rp, "degenerate")
     };
+    // one robot in twenty-five is the same design at another scale: x25 .. x100 (a gantry-sized arm) or x0.01 .. x0.1
+    let (mut rp, class) = (rp, class);
+    if class != "degenerate" && rng.usize(25) == 0 {
+        let k = if rng.bool(0.6) { rng.range(25.0, 100.0) } else { rng.logu(0.01, 0.1) };
+        rp.a1 *= k;
+        rp.a2 *= k;
+        rp.b *= k;
+        rp.c1 *= k;
+        rp.c2 *= k;
+        rp.c3 *= k;
+        rp.c4 *= k;
+    }
     // sign pattern: bundled robots keep their own convention half of the time
     let pattern = (idx % 64) as u8;
     let keep_own = class == "bundled" && rng.bool(0.5);
@@ -338,6 +350,18 @@ pub fn limit_pair(rng: &mut Rng, class: usize, around: f64) -> (f64, f64) {
             let to = (from - rng.range(0.3, 2.5)).max(0.3);
             (from, to)
         }
+        // almost the whole turn is allowed: a forbidden gap of half-width 3e-9 .. 1e-3 rad centred on the value
+        // (written as a plain range of nearly 2pi, or as the equivalent wrap-around range)
+        11 => {
+            let g = rng.logu(3e-9, 1e-3);
+            if rng.bool(0.5) { (around + g, around - g + 2.0 * PI) } else { (around + g, around - g) }
+        }
+        // a continuous joint declared with infinite bounds (both, or one side only): a span of more than a turn
+        12 => match rng.usize(3) {
+            0 => (f64::NEG_INFINITY, f64::INFINITY),
+            1 => (f64::NEG_INFINITY, rng.range(-PI, PI)),
+            _ => (rng.range(-PI, PI), f64::INFINITY),
+        },
         // a joint all but locked (window of 1e-6 .. 1e-3 rad) with the value a hair OUTSIDE it (2e-9 .. 1e-5 rad)
         10 => {
             let w = rng.logu(1e-6, 1e-3);
